@@ -118,10 +118,13 @@ var leafOrder = func() []leaf {
 
 // containerAlphabet: mounts and groups over the first nPrefix prefixes, plus nGM mount-from-group
 // letters (18 = every group prefix x mount prefix of the reduced prefix set, 3 = three fixed pairs)
-func containerAlphabet(nPrefix, nGM, nMM int) []clabel {
+func containerAlphabet(order []string, nPrefix, nGM, nMM int) []clabel {
+	if order == nil {
+		order = prefixOrder
+	}
 	var out []clabel
 	for _, k := range []byte{'m', 'g'} {
-		for _, p := range prefixOrder[:nPrefix] {
+		for _, p := range order[:nPrefix] {
 			out = append(out, clabel{K: k, P1: p})
 		}
 	}
@@ -152,13 +155,15 @@ func containerAlphabet(nPrefix, nGM, nMM int) []clabel {
 // policy: alphabets per size class
 type policy struct {
 	depth, cMax, nMax int
-	nPrefix           func(c, n int) int // 6 = full, 3 = reduced
-	nGM               func(c, n int) int // mount-from-group letters (quick tier only; the thorough tier nests for real)
-	nMM               func(c, n int) int // mount-in-mount letters (quick tier only)
-	nLeaf             func(c, n int) int // fullLeaves = full
-	leaves            []leaf             // leaf letters in enumeration order (nil = leafOrder)
-	minTop            int                // least number of top-level items of a skeleton
-	phasedCfgs        []int              // late-registration family: configurations (indexes into cfgs) under which the two-phase programs run
+	nPrefix           func(c, n int) int   // 6 = full, 3 = reduced
+	nGM               func(c, n int) int   // mount-from-group letters (quick tier only; the thorough tier nests for real)
+	nMM               func(c, n int) int   // mount-in-mount letters (quick tier only)
+	nLeaf             func(c, n int) int   // fullLeaves = full
+	leaves            []leaf               // leaf letters in enumeration order (nil = leafOrder)
+	minTop            int                  // least number of top-level items of a skeleton
+	prefixes          []string             // container prefixes in enumeration order (nil = prefixOrder)
+	cfgsFor           func(c, n int) []int // parameterised-prefix family: configurations (indexes into cfgs) per size class
+	phasedCfgs        []int                // late-registration family: configurations (indexes into cfgs) under which the two-phase programs run
 }
 
 func quickPolicy() policy {
@@ -256,7 +261,7 @@ func enumerate(p policy, want func(idx int64) bool, visit func(idx int64, t *tre
 	var idx int64
 	for _, s := range sk {
 		np, nl := p.nPrefix(s.c, s.n), p.nLeaf(s.c, s.n)
-		ca := containerAlphabet(np, p.nGM(s.c, s.n), p.nMM(s.c, s.n))
+		ca := containerAlphabet(p.prefixes, np, p.nGM(s.c, s.n), p.nMM(s.c, s.n))
 		if nl == 0 && s.n > 0 {
 			continue // class not part of this family
 		}
@@ -457,5 +462,109 @@ func thoroughLatePolicy() policy {
 				return 6
 			}
 			return 3
+		}}
+}
+
+// ---------------------------------------------------------------------------
+// parameterised-prefix family ("prefixes with every parameter kind")
+//
+// Container prefixes with a named, optional, constrained, wildcard and greedy parameter, several
+// of them, a constant after the parameter - on mounts and groups (and, through the full-path and
+// the Route()-chain programs, at those levels too), nested two deep (depth 3) - combined with
+// routes and middleware whose own patterns have parameters of the same and of other kinds.
+// Explored in richMode: requests with distinct values per parameter position, handlers report
+// every way of reading parameters.
+
+var richPrefixOrder = []string{"/*", "/+", "/:t", "/f/*/by", "/:t?", "/p/+/q", "/:t<int>", "/:t/:u", "/*/+", "/api"}
+
+const fullRichLeaves = 54 // 3 kinds x 9 patterns x 2 behaviours
+
+var richLeafOrder = func() []leaf {
+	first := []leaf{
+		{kGET, "/*", false}, {kGET, "/+", false}, {kUSE, "/*", true}, {kGET, "/:id", false},
+		{kUSE, "/+", true}, {kGET, "/x", false}, {kGET, "/:id?", false}, {kUSE, "/:id", true},
+		{kGET, "/o/*", false}, {kGET, "/:id<int>", false}, {kGET, "/:t", false}, {kUSE, "/", true},
+		{kALL, "/*", true}, {kALL, "/+", false}, {kGET, "/", false}, {kUSE, "/o/*", true},
+	}
+	seen := map[leaf]bool{}
+	out := append([]leaf(nil), first...)
+	for _, l := range first {
+		seen[l] = true
+	}
+	for _, k := range []uint8{kGET, kUSE, kALL} {
+		for _, p := range []string{"/*", "/+", "/:id", "/:id?", "/:id<int>", "/:t", "/o/*", "/x", "/"} {
+			for _, nx := range []bool{false, true} {
+				l := leaf{k, p, nx}
+				if !seen[l] {
+					out = append(out, l)
+				}
+			}
+		}
+	}
+	return out
+}()
+
+func allCfgs() []int {
+	all := make([]int, len(cfgs))
+	for i := range all {
+		all[i] = i
+	}
+	return all
+}
+
+func quickRichPolicy() policy {
+	two := []int{0, len(cfgs) - 1}
+	return policy{depth: 3, cMax: 2, nMax: 2, minTop: 1, leaves: richLeafOrder, prefixes: richPrefixOrder,
+		cfgsFor: func(c, n int) []int {
+			if c == 1 && n <= 1 {
+				return allCfgs()
+			}
+			return two
+		},
+		nGM: func(c, n int) int { return 0 },
+		nMM: func(c, n int) int { return 0 },
+		nPrefix: func(c, n int) int {
+			switch {
+			case c == 1:
+				return 10
+			case n <= 1:
+				return 6
+			}
+			return 4
+		},
+		nLeaf: func(c, n int) int {
+			switch {
+			case c == 1 && n <= 1:
+				return fullRichLeaves
+			case c == 1:
+				return 10
+			case n <= 1:
+				return 12
+			}
+			return 3
+		}}
+}
+
+func thoroughRichPolicy() policy {
+	return policy{depth: 3, cMax: 2, nMax: 2, minTop: 1, leaves: richLeafOrder, prefixes: richPrefixOrder,
+		cfgsFor: func(c, n int) []int { return allCfgs() },
+		nGM:     func(c, n int) int { return 0 },
+		nMM:     func(c, n int) int { return 0 },
+		nPrefix: func(c, n int) int {
+			if c == 1 || n <= 1 {
+				return 10
+			}
+			return 6
+		},
+		nLeaf: func(c, n int) int {
+			switch {
+			case c == 1 && n <= 1:
+				return fullRichLeaves
+			case c == 1:
+				return 16
+			case n <= 1:
+				return 16
+			}
+			return 4
 		}}
 }
